@@ -130,6 +130,15 @@ def make_data(r: random.Random, variant: int) -> dict[str, Any]:
                  "draft": flip()},
         "user": {"name": r.choice(WORDS), "admin": flip(), "langs": arr(lambda: r.choice(["en", "de"]))},
     }
+    d.update({"f": r.choice([0.5, 2.25, -1.0]), "nothing": None, "grid": [[1, 2], [3]] if flip(0.7) else [[]],
+              "pair": (r.choice([1, 2]), r.choice(WORDS))})
+    if variant % 2 == 0:
+        # user globals named like the names constructs may bind: a lookup that is NOT served by
+        # the construct is then visible in the output as well as to the recording global layer
+        d.update({"forloop": {"index": "G", "length": "G", "first": "G", "last": "G", "index0": "G",
+                              "rindex": "G", "parentloop": {"index": "G"}},
+                  "tablerowloop": {"col": "G", "row": "G", "index": "G", "col_first": "G", "last": "G"},
+                  "args": ["G"], "kwargs": {"extra": "G"}, "block": {"super": "G"}, "count": 7})
     if variant >= 3:
         for k in r.sample(sorted(d), r.choice([0, 1, 2])):
             del d[k]
@@ -155,6 +164,7 @@ class Opts:
         self.known_implicit = 0.04  # `t` filter message variables etc. (implicit context.resolve lookups)
         self.comments = 0.18
         self.leak_reader = 0.45  # read a block-bound name again after its block
+        self.no_for = False  # no `for` tag anywhere: nothing in the set binds forloop for certain
         self.__dict__.update(kw)
 
 
@@ -266,6 +276,20 @@ class G:
                              ("h", [("p", ("h", [("n", "key")]))])])
         return r.choice([("items", [idx]), ("items", [("n", "first")]), ("rows", [idx]), ("rows", [("n", "last")]),
                          ("page", [("n", "items"), idx])])
+
+    WIDE = ["h", "page", "n", "f", "s", "flag", "nothing", "nosuch", "grid", "none", "pair", "xs", "items",
+            "user"]
+
+    def wide(self, scope: list, loop: str | None) -> Frag:
+        """A value of any kind: mapping, int, float, string, bool, nil, undefined, nested
+        list, empty list, tuple, list, range."""
+        r = self.r
+        self.features.add("wide-kind-operand")
+        if r.random() < 0.12:
+            return cat("(", self.lit("i"), "..", self.path("i", scope, loop, "range-stop"), ")")
+        if r.random() < 0.15:
+            return self.path_frag(("h", [("n", r.choice(["a", "list", "name", "idx", "nosuch"]))]))
+        return self.path_frag((r.choice(self.WIDE), []))
 
     def path(self, ty: str, scope: list, loop: str | None, label: str = "plain") -> Frag:
         return self.path_frag(self.path_spec(ty, scope, loop), label)
@@ -633,6 +657,10 @@ class G:
             kinds += ["break"]
         if self.macros and not fl.get("macro"):
             kinds += ["call"] * 2
+        if self.o.no_for:
+            kinds = [x for x in kinds if x not in ("for", "break")]
+            if not deep and self.n_partials < 6:
+                kinds += ["partial"] * 4
         k = r.choice(kinds)
         self.features.add(k)
         E = lambda ty="any": self.expr(scope, loop, ty)  # noqa: E731, N806
@@ -675,7 +703,7 @@ class G:
             for i in range(r.randint(1, 3)):
                 if i:
                     its.append(", ")
-                its.append(P(r.choice(["s", "i", "any"])))
+                its.append(self.wide(scope, loop) if r.random() < 0.25 else P(r.choice(["s", "i", "any"])))
             g = cat(self.strlit(r.choice(["g1", "g2"])), ": ") if r.random() < 0.3 else None
             return [("T", "cycle", cat(g, *its), True)]
         if k in ("if", "unless"):
@@ -709,7 +737,7 @@ class G:
             ity = r.choice(["a", "a", "o", "o", "h"])
             var = self.bind_name(LOOP_VARS, "i")
             self.binders.add("forloop" if k == "for" else "tablerowloop")
-            head: list[Any] = [var, " in ", P(ity)]
+            head: list[Any] = [var, " in ", self.wide(scope, loop) if r.random() < 0.15 else P(ity)]
             optfr: list[Any] = []
             if r.random() < 0.4:
                 optfr.append(cat("limit: ", P("i") if r.random() < 0.6 else self.lit("i").lstrip("-")))
@@ -730,6 +758,10 @@ class G:
             if r.random() < 0.7:
                 ref = self.path_frag((var, [("n", r.choice(["k", "t"]))] if vt == "x" and r.random() < 0.7 else []))
                 body.insert(0, ("T", "echo", ref, True) if line else ("O", ref))
+            if r.random() < 0.35:
+                lref = self.path_frag(("forloop" if k == "for" else "tablerowloop",
+                                       [("n", "index" if k == "for" else "col")]))
+                body.append(("T", "echo", lref, True) if line else ("O", lref))
             out = [("T", k, cat(*head), True), *body]
             if k == "for" and r.random() < 0.35:
                 out.append(("T", "else", None, False))
@@ -747,7 +779,7 @@ class G:
                 nm = self.bind_name(["wa", "wb", "v1"], "s")
                 if i:
                     binds.append(r.choice([", ", ", ", " "]))
-                binds += [nm, ": " if r.random() < 0.85 else " = ", P("any")]
+                binds += [nm, ": " if r.random() < 0.85 else " = ", self.wide(scope, loop) if r.random() < 0.3 else P("any")]
                 sc2.append((nm, "any"))
             body = self.items(depth + 1, sc2, fl, n=r.randint(1, 3))
             self._leak = sc2[-1][0]
@@ -835,6 +867,8 @@ class G:
         if k == "scoped-partial":
             # a partial loaded while a scope frame is pushed by the enclosing block
             form = r.choice(["for", "for", "with", "macro"] if not (line or fl.get("isolated")) else ["for", "with"])
+            if self.o.no_for and form == "for":
+                form = "with"
             if form == "for":
                 var = self.bind_name(LOOP_VARS + ["item"], "i")
                 self.binders.add("forloop")
@@ -882,7 +916,11 @@ class G:
         mode = r.choice([None, None, "with", "for"])
         if mode:
             ty = "any" if mode == "with" else r.choice(["a", "o"])
-            head += [f" {mode} ", self.prim(ty, scope, loop)]
+            if r.random() < (0.5 if mode == "for" else 0.3):
+                ty = "any"
+                head += [f" {mode} ", self.wide(scope, loop)]
+            else:
+                head += [f" {mode} ", self.prim(ty, scope, loop)]
             if r.random() < 0.6:
                 alias = self.bind_name(["item", "al", "x"], "s")
                 head += [" as ", alias]
@@ -892,8 +930,7 @@ class G:
                 self.binders.update({alias, name.rsplit("/", 1)[-1].split(".", 1)[0]})
                 alias = name.rsplit("/", 1)[-1].split(".", 1)[0]
             sc2.append((alias, "x" if ty == "o" else "any"))
-            if mode == "for" and tag == "render":
-                self.binders.add("forloop")
+            # `render ... for` binds forloop only when the value is a sequence: not a certain binder
         for i in range(r.choice([0, 0, 1, 2])):
             kw = self.bind_name(["ka", "kb", "v2"], "s")
             head += [", " if (mode or i or r.random() < 0.5) else " ", kw, ": ", self.prim("any", scope, loop)]
@@ -908,6 +945,8 @@ class G:
             body = self.items(depth + 1, sc2, fl2, n=r.randint(1, 4))
             if mode and sc2:
                 body.append(("O", self.path_frag((sc2[len(scope) if tag == "include" else 0][0], []))))
+            if mode == "for" and r.random() < 0.75:
+                body.append(("O", self.path_frag(("forloop", [("n", r.choice(["index", "length", "first"]))]))))
             body.append(("X", f"<{name}>"))  # makes every source text distinct
             self.write(src, body)
             self._building.discard(name)
